@@ -1160,7 +1160,7 @@ impl QueryParser {
             }
             Rule::float => {
                 let value = value_pair.as_str();
-                FieldValue::Value(ParamValue::Float(value.parse()?))
+                FieldValue::Value(ParamValue::Float(super::parse_float(value)?))
             }
             Rule::integer => {
                 let value = value_pair.as_str();
